@@ -191,6 +191,61 @@ fn key_from(sb: &Sandbox, k: &Value) -> String {
     sb.key_string(k["abs"].as_bool().unwrap_or(false), &comps)
 }
 
+/// Two well-formed typed keys that differ in exactly one field: each must keep its own value in a DiskCache.
+fn typed_pair(prog: &Value, ev: &mut Value) {
+    use cascette_cache::key::{ArchiveRangeKey, BlteBlockKey, BlteKey, ContentCacheKey, EncodingFileKey, ManifestKey, RootFileKey};
+    use cascette_crypto::{ContentKey, EncodingKey};
+    let sb = Sandbox::new();
+    let ty = prog["ty"].as_str().unwrap();
+    let vary = prog["vary"].as_str().unwrap();
+    let subdirs = prog["subdirs"].as_bool().unwrap_or(false);
+    let ck = |b: u8| ContentKey::from_bytes([b; 16]);
+    let ek = |b: u8| EncodingKey::from_bytes([b; 16]);
+    ev["pair"] = json!(true);
+    ev["base"] = json!(format!("typed.{ty}.{vary}"));
+    macro_rules! run {
+        ($k:ty, $a:expr, $b:expr) => {{
+            let c = disk_cache::<$k>(&sb, subdirs);
+            let ks: Vec<$k> = vec![$a, $b];
+            ev["keys"] = json!([ks[0].as_cache_key(), ks[1].as_cache_key()]);
+            exercise_cache(&sb, &c, &ks, ev);
+        }};
+    }
+    match (ty, vary) {
+        ("ribbit", "endpoint") => run!(RibbitKey, RibbitKey::new("versions", "us"), RibbitKey::new("cdns", "us")),
+        ("ribbit", "region") => run!(RibbitKey, RibbitKey::new("versions", "us"), RibbitKey::new("versions", "eu")),
+        ("ribbit", "product") => run!(RibbitKey, RibbitKey::with_product("versions", "us", "wow"), RibbitKey::with_product("versions", "us", "d3")),
+        ("ribbit", "product_none") => run!(RibbitKey, RibbitKey::new("versions", "us"), RibbitKey::with_product("versions", "us", "wow")),
+        ("config", "type") => run!(ConfigKey, ConfigKey::new("build", "abcd"), ConfigKey::new("cdn", "abcd")),
+        ("config", "hash") => run!(ConfigKey, ConfigKey::new("build", "abcd"), ConfigKey::new("build", "abce")),
+        ("blte", "ekey") => run!(BlteKey, BlteKey::new(ek(1)), BlteKey::new(ek(2))),
+        ("blte", "block") => run!(BlteKey, BlteKey::with_block(ek(1), 0), BlteKey::with_block(ek(1), 1)),
+        ("blte", "block_none") => run!(BlteKey, BlteKey::new(ek(1)), BlteKey::with_block(ek(1), 0)),
+        ("content", "ckey") => run!(ContentCacheKey, ContentCacheKey::new(ck(1)), ContentCacheKey::new(ck(2))),
+        ("index", "name") => run!(ArchiveIndexKey, ArchiveIndexKey::new("arch1", "abcd"), ArchiveIndexKey::new("arch2", "abcd")),
+        ("index", "hash") => run!(ArchiveIndexKey, ArchiveIndexKey::new("arch1", "abcd"), ArchiveIndexKey::new("arch1", "abce")),
+        ("manifest", "type") => run!(ManifestKey, ManifestKey::new("install", ck(1)), ManifestKey::new("download", ck(1))),
+        ("manifest", "ckey") => run!(ManifestKey, ManifestKey::new("install", ck(1)), ManifestKey::new("install", ck(2))),
+        ("manifest", "version") => run!(ManifestKey, ManifestKey::with_version("install", ck(1), "1.2.3"), ManifestKey::with_version("install", ck(1), "1.2.4")),
+        ("manifest", "version_none") => run!(ManifestKey, ManifestKey::new("install", ck(1)), ManifestKey::with_version("install", ck(1), "1.2.3")),
+        ("root", "ckey") => run!(RootFileKey, RootFileKey::new_raw(ck(1)), RootFileKey::new_raw(ck(2))),
+        ("root", "parsed") => run!(RootFileKey, RootFileKey::new_raw(ck(1)), RootFileKey::new_parsed(ck(1))),
+        ("root", "version") => run!(RootFileKey, RootFileKey::with_version(ck(1), false, 1), RootFileKey::with_version(ck(1), false, 2)),
+        ("root", "version_none") => run!(RootFileKey, RootFileKey::new_raw(ck(1)), RootFileKey::with_version(ck(1), false, 1)),
+        ("encoding", "ekey") => run!(EncodingFileKey, EncodingFileKey::new_raw(ek(1)), EncodingFileKey::new_raw(ek(2))),
+        ("encoding", "parsed") => run!(EncodingFileKey, EncodingFileKey::new_raw(ek(1)), EncodingFileKey::new_parsed(ek(1))),
+        ("encoding", "page") => run!(EncodingFileKey, EncodingFileKey::with_page(ek(1), 0, false), EncodingFileKey::with_page(ek(1), 1, false)),
+        ("encoding", "page_none") => run!(EncodingFileKey, EncodingFileKey::new_raw(ek(1)), EncodingFileKey::with_page(ek(1), 0, false)),
+        ("range", "archive") => run!(ArchiveRangeKey, ArchiveRangeKey::new("arch1", 0, 10), ArchiveRangeKey::new("arch2", 0, 10)),
+        ("range", "offset") => run!(ArchiveRangeKey, ArchiveRangeKey::new("arch1", 0, 10), ArchiveRangeKey::new("arch1", 1, 10)),
+        ("range", "length") => run!(ArchiveRangeKey, ArchiveRangeKey::new("arch1", 0, 10), ArchiveRangeKey::new("arch1", 0, 11)),
+        ("block", "ckey") => run!(BlteBlockKey, BlteBlockKey::new_raw(ck(1), 0), BlteBlockKey::new_raw(ck(2), 0)),
+        ("block", "index") => run!(BlteBlockKey, BlteBlockKey::new_raw(ck(1), 0), BlteBlockKey::new_raw(ck(1), 1)),
+        ("block", "decompressed") => run!(BlteBlockKey, BlteBlockKey::new_raw(ck(1), 0), BlteBlockKey::new_decompressed(ck(1), 0)),
+        other => panic!("driver: unknown typed pair {other:?}"),
+    }
+}
+
 static MOCK_PORT: OnceLock<u16> = OnceLock::new();
 /// minimal HTTP/1.1 server answering every GET with 200 and a fixed body (for CdnClient::download)
 fn mock_port() -> u16 {
@@ -241,6 +296,11 @@ fn run_program(prog: &Value, em: &Emit, rt: &tokio::runtime::Runtime) {
     let mut ev = json!({"op": "call", "api": api, "prog": prog});
     em.begin(prog);
     let sb = Sandbox::new();
+    if api == "pair:typed" {
+        typed_pair(prog, &mut ev);
+        em.ev(ev);
+        return;
+    }
     let (base_api, keys): (String, Vec<String>) = if let Some(a) = api.strip_prefix("pair:") {
         (a.to_string(), vec![key_from(&sb, &prog["k1"]), key_from(&sb, &prog["k2"])])
     } else if prog.get("comps").is_some() {
